@@ -424,6 +424,36 @@ _record(
 )
 
 
+# --- 11. a plain dataclasses.dataclass registered by hand: default entries 0..n-1, AutoEntry -> DataclassEntry
+#         (integer entries index the *init* fields; a non-init field sits between them)
+import dataclasses as _dc  # noqa: E402
+
+
+@_dc.dataclass
+class PDC:
+    a: Any
+    derived: Any = _dc.field(init=False, default='derived-non-init')
+    b: Any = None
+    c: Any = 0
+
+    def _same_parts(self):
+        return (None, [self.a, self.b, self.c])
+
+
+def _pdc_flatten(o):
+    tick('flatten:PDC', o)
+    return (o.a, o.b, o.c), None
+
+
+def _pdc_unflatten(metadata, children):
+    tick('unflatten:PDC', metadata)
+    return PDC(*children)
+
+
+optree.register_pytree_node(PDC, _pdc_flatten, _pdc_unflatten, namespace=GLOBAL)
+_record('', PDC, lambda o: ([o.a, o.b, o.c], None, None), _pdc_unflatten, optree.AutoEntry)
+
+
 # --- 10. optree.functools.partial (registered globally by optree itself)
 def rec_fn(*args, **kwargs):
     """A module-level callable for partials (records nothing; identity of args matters)."""
@@ -436,7 +466,7 @@ def _partial_flatten(o):
 
 _record('', optree.functools.partial, _partial_flatten, optree.functools.partial.tree_unflatten, optree.GetAttrEntry)
 
-CUSTOM_GLOBAL = (CSeq, CList, CMap, CAttr, CShadow, CUser, UDict, DCG)
+CUSTOM_GLOBAL = (CSeq, CList, CMap, CAttr, CShadow, CUser, UDict, DCG, PDC)
 CUSTOM_NS = (CNs, DC)
 LEAF_SUBCLASSES = (ListSub, TupleSub, DictSub, ODictSub, DDictSub, DequeSub)
 
